@@ -146,6 +146,36 @@ def gen_auth_case(rng):
     return tS, fixA, user, pw, interval
 
 
+SSH_TOKENS = [b"Password: ", b"password:", b"admin@10.0.0.1's password: ", b"Enter passphrase for key '/home/u/.ssh/id_rsa': ", b"\n", b"r1#", b"r1>",
+              b"Warning: Permanently added '10.0.0.1' (RSA) to the list of known hosts.\n", b"Last login: Mon\n", b" ", b"x"]
+SSH_ERRORS = [b"Host key verification failed.\n", b"ssh: connect to host 10.0.0.1 port 22: Operation timed out\n", b"no matching cipher found. Their offer: aes128-cbc\n",
+              b"ssh: Could not resolve hostname r1: Name or service not known\n", b"Permission denied, please try again.\n"]
+# substrings BaseChannel._ssh_message_handler reacts to (sync only; the audited difference)
+SSH_TRIGGERS = [b"host key verification failed", b"operation timed out", b"connection timed out", b"no route to host", b"no matching host key",
+                b"no matching key exchange", b"no matching cipher", b"bad configuration", b"unprotected private key file", b"could not resolve hostname",
+                b"permission denied"]
+
+
+def gen_ssh_case(rng):
+    """-> (sync tape, async tape, has an ssh error message) for channel_authenticate_ssh"""
+    toks = [rng.choice(SSH_TOKENS) for _ in range(rng.randint(1, 7))]
+    err = rng.random() < 0.15
+    if err:
+        toks.insert(rng.randrange(len(toks) + 1), rng.choice(SSH_ERRORS))
+    stream = b"".join(toks)
+    err = any(t in stream.lower() for t in SSH_TRIGGERS)
+    n = len(stream)
+    k = rng.choice([0, 0, 1, 2, 4]) if n > 1 else 0
+    pts = [0, *sorted(rng.sample(range(1, n), min(k, n - 1))), n] if n > 1 else [0, n]
+    tS = [("d", stream[a:b], 0) for a, b in zip(pts, pts[1:])]
+    tA = []
+    for ev in tS:
+        while rng.random() < 0.25:
+            tA.append(("p", 0))
+        tA.append(ev)
+    return tS, tA, err
+
+
 def enc_tape(t):
     out = []
     for e in t:
@@ -740,6 +770,30 @@ def run(tier, seed):
             import traceback
             ck.proof_broken("login-variant correspondence harness", traceback.format_exc()[-1500:])
     phases['login-variants'], tp = round(time.time() - tp, 1), time.time()
+    # in-channel ssh authentication, channel level (pairwise oracle on the real methods; no model)
+    try:
+        ssh_cases = [gen_ssh_case(ck.rng) for _ in range(300 if tier == "quick" else 5000)]
+
+        async def all_ssh():
+            return [await A.run_ssh_async(tA, "pw", "phrase") for _tS, tA, _e in ssh_cases]
+        sres = asyncio.run(all_ssh())
+        ssh_adv = 0
+        for (tS, tA, err), ar in zip(ssh_cases, sres):
+            sr = A.run_ssh_sync(tS, "pw", "phrase")
+            ck.case(("ssh-auth", enc_tape(tS), enc_tape(tA)), nontrivial=len(tA) > len(tS) or len(tS) > 1,
+                    sample={"ssh_auth": {"sync": tape_json(tS), "async": tape_json(tA)}}, tags=("ssh-auth", "ssh-error-message" if err else "ssh-dialogue", f"ssh-out={sr[0]}"))
+            ck.extra["programs"] = ck.extra.get("programs", 0) + 2
+            if sr == ar:
+                ck.traces_validated += 1
+            elif err:
+                ssh_adv += 1          # audited: the async method has no _ssh_message_handler (no asyncio driver calls it)
+            else:
+                ck.violation({"ssh_auth": {"sync": tape_json(tS), "async": tape_json(tA)}, "got_sync": [sr[0], [w.decode("latin-1") for w in sr[1]]],
+                              "got_async": [ar[0], [w.decode("latin-1") for w in ar[1]]], "finding": None},
+                             "in-channel ssh authentication: Channel and AsyncChannel differ on a dialogue without ssh error message", matcher)
+        ck.extra["advisory_ssh_auth_divergences_on_ssh_error_messages"] = ssh_adv
+    except Exception as e:      # noqa
+        ck.proof_broken("ssh-auth channel harness", repr(e))
     # ---------------------------------------------------------------- 6 paired scenarios (simulated transports)
     scns = []
     try:
@@ -904,6 +958,12 @@ def replay(path):
         live, _ = live_mismatches()
         print("live mismatches:", sorted(live))
         return 1 if tuple(case["parity"]) in live else 0
+    if "ssh_auth" in case:
+        c = case["ssh_auth"]
+        s = A.run_ssh_sync(tape_from_json(c["sync"]), "pw", "phrase")
+        a = asyncio.run(A.run_ssh_async(tape_from_json(c["async"]), "pw", "phrase"))
+        print("sync ", s, "\nasync", a)
+        return 1 if s != a else 0
     if "auth" in case:
         c = case["auth"]
         tS, tA = tape_from_json(c["sync"]), tape_from_json(c["async"])
